@@ -13,6 +13,7 @@ pub mod c11;
 pub mod c12;
 pub mod c13;
 pub mod c14;
+pub mod c15;
 pub mod c16;
 pub mod c17;
 pub mod c18;
@@ -67,6 +68,10 @@ pub fn lookup(id: &str) -> Option<Prop> {
         "C14" => Prop {
             check: c14::check,
             replay: c14::replay,
+        },
+        "C15" => Prop {
+            check: c15::check,
+            replay: c15::replay,
         },
         "C16" => Prop {
             check: c16::check,
